@@ -591,7 +591,7 @@ func init() {
 	})
 	sim.Register(&sim.Prop{
 		ID: "C03", Engine: "E-WORLD", Level: "exploration", Fn: runC03, NewEnv: NewEnv,
-		Runs: map[string]int{"quick": 128, "thorough": 5000},
+		Runs: map[string]int{"quick": 320, "thorough": 5000},
 		Rule: "per run: seeded writer history as for C02; at the final and one intermediate commit, for every index and every primary key: keys for every prefix length 0..n built from stored entries and their neighbours (+-1, same number as int and as real, next float, 2^53+-1, 2^63, case-swapped, trailing space/tab/newline, prefix, other storage class, NULL) -> IndexedSelectEq / PKSelect vs the entries SQLite's rules select (independent comparator validated against SQLite in setup, cross-checked in-run against `WHERE +col COLLATE c IS ?`); evaluations = key lookups; non-trivial run = some key matched rows; distinct = distinct event logs",
 		Real: append([]string{"unix file pager on real files"}, realAll...), Stub: []string{},
 		Assumptions: []string{"expected rows are computed by the reference comparator (refcmp) over SQLite's own index entries; refcmp is validated against SQLite by `simv refcheck` in setup and by in-run count cross-checks"},
@@ -610,7 +610,7 @@ func init() {
 	})
 	sim.Register(&sim.Prop{
 		ID: "C04", Engine: "E-WORLD", Level: "exploration", Fn: runC04, NewEnv: NewEnv,
-		Runs: map[string]int{"quick": 128, "thorough": 5000},
+		Runs: map[string]int{"quick": 160, "thorough": 5000},
 		Rule: "per run: seeded writer history (small pages for deep table trees, negative/zero/extreme rowids, deletes, vacuum); at the final and one intermediate commit, for every rowid table: SelectRowid, PKSelect (rowid-alias tables) and low-level Table.Rowid for every present rowid and both neighbours (exhaustive <=3000 rows), the separator keys of every interior page and first/last key of every leaf (page walker, aiming only), 0, +-1, int64 min/max; present => the row SQLite reports, absent => no row and no error; evaluations = lookups; non-trivial = found a present row; distinct = distinct event logs",
 		Real: append([]string{"unix file pager on real files"}, realAll...), Stub: []string{},
 		Assumptions: []string{"fault-free configuration"},
